@@ -140,21 +140,21 @@ theorem plain_step {d : Array Nat} {nbF p cur : Nat} {it : Iter} {e : Ext} {flag
     simp only [a1, a2, a3, if_false]
   by_cases hsame : e.frame.toNat = cur
   · have hsep : sepBytes e.frame.toNat cur = [] := by simp [sepBytes, hsame]
-    simp only [hsep, List.nil_append, List.length_nil, Nat.add_zero, hsame, if_true] at hat hend ⊢
+    rw [hsep] at hat hend ⊢
+    simp only [List.nil_append, List.length_nil, Nat.add_zero, Nat.zero_add] at hat hend ⊢
+    simp only [if_pos hsame]
     obtain ⟨it2, h1, h2, h3, h4⟩ := mainBody_ext (hsame ▸ hs) hv rfl hat (by omega) hflag
-    refine ⟨it2, ?_, hsame ▸ h2, ?_⟩
-    · apply Steps.of_next (r := { id := e.id.toNat, frame := e.frame.toNat, off := p + 1 + hdrLen e flag, len := e.len })
+    refine ⟨it2, ?_, h2, ?_⟩
+    · apply Steps.of_next (r := ⟨e.id.toNat, e.frame.toNat, p + 1 + hdrLen e flag, e.len⟩)
       · rw [hnext it hs, mainLoop_eq]; simp only [hcl, if_true, h1]
       · exact toExt_eq hv _ rfl (at_payload hv hat)
     · unfold Reg at hr ⊢
       obtain ⟨r1, r2, r3⟩ := hr
-      refine ⟨by rw [h3, r1], ?_, ?_⟩
-      · split at h4
-        · simp only [*, if_true]; rw [h4.1, r2]
-        · simp only [*, if_false]; exact h4.1
-      · split at h4
-        · simp only [*, if_true]; rw [h4.2, r3]
-        · simp only [*, if_false]; exact h4.2
+      by_cases h32 : e.id < 32
+      · simp only [h32, if_true] at h4 ⊢
+        exact ⟨by rw [h3, r1], by rw [h4.1, r2], by rw [h4.2, r3]⟩
+      · simp only [h32, if_false] at h4 ⊢
+        exact ⟨by rw [h3, r1], h4.1, h4.2⟩
   · have hlt : cur < e.frame.toNat := by omega
     simp only [List.append_assoc] at hat
     obtain ⟨it1, h1, h2, q1, q2, q3⟩ := mainBody_sep hs hlt hf hat (by simp [extBytes])
@@ -168,12 +168,10 @@ theorem plain_step {d : Array Nat} {nbF p cur : Nat} {it : Iter} {e : Ext} {flag
         rw [mainLoop_eq]; simp only [hcl1, if_true, g1]
       · exact toExt_eq hv _ rfl (at_payload hv hat')
     · unfold Reg
-      refine ⟨by rw [g3, q1], ?_, ?_⟩
-      · split at g4
-        · simp only [*, if_true]; rw [g4.1, q2]
-        · simp only [*, if_false]; exact g4.1
-      · split at g4
-        · simp only [*, if_true]; rw [g4.2, q3]
-        · simp only [*, if_false]; exact g4.2
+      by_cases h32 : e.id < 32
+      · simp only [h32, if_true] at g4 ⊢
+        exact ⟨by rw [g3, q1], by rw [g4.1, q2], by rw [g4.2, q3]⟩
+      · simp only [h32, if_false] at g4 ⊢
+        exact ⟨by rw [g3, q1], g4.1, g4.2⟩
 
 end Opus.ExtProofs
